@@ -124,7 +124,7 @@ def _resume_runs(env: Env, out: Outcome, n: int, extra: list[dict]) -> None:
         snap = snaps[0]
         waiting = monitors.live_waiters_at(tr1, snap["at_call"])
         spec2 = copy.deepcopy(spec)
-        spec2["externals"] = [e for e in getattr(tr1, "remaining_externals", []) if e["op"] == "send"]
+        spec2["externals"] = copy.deepcopy([e for e in getattr(tr1, "remaining_externals", []) if e["op"] == "send"])
         for e in spec2["externals"]:
             e["after_quiet"] = 0
         spec2["_resumed"] = True
@@ -135,8 +135,13 @@ def _resume_runs(env: Env, out: Outcome, n: int, extra: list[dict]) -> None:
         if waiting:
             out.nontrivial((repr(spec), tuple(tr1.actions), tuple(tr2.actions)))
         case = {"resume": {"spec": spec, "seed": seed, "actions1": tr1.actions, "actions2": tr2.actions}}
-        for v in monitors.mon_c10(tr2):
+        rehydrated = {(nm, w.waiter_id) for nm, w in waiting if w.has_requirements or w.requirements}
+        for v in monitors.mon_c10(tr2, earlier_users=monitors.c10_waiter_users(tr1)):
             v.replay = case
+            if v.signature == "C10/resumed_more_than_once" and any(f"'{nm}'" in v.what and f"'{wid}'" in v.what for nm, wid in rehydrated if (nm, wid) in rehydrated):
+                # the waiter lost its requirements in the snapshot: the step is re-pinged on resume, and an event that
+                # resolves the waiter before that replay has run queues a second replay (same root as F30)
+                v.signature = "C10/rehydration_window_double_replay"
             out.violations.append(v)
         # a waiter whose timeout had fired before the snapshot must still raise after resume
         for nm, w in waiting:
